@@ -56,6 +56,23 @@ pub fn run<A: Cx>(d: &mut Drv<A>, scale: usize, all: bool) {
                 }
             }
         }
+        // sequences holding bit patterns that only a raw image can produce: for the 8-bit text codec
+        // every byte is a symbol (lower-case / soft-masked bases, IUPAC letters, punctuation)
+        if A::NAME == "text" {
+            let m = d.rng.range(1, 40);
+            let bytes: Vec<u8> = (0..m).map(|_| 32 + d.rng.below(95) as u8).collect();
+            let mut limbs: Vec<u64> = Vec::new();
+            for ch in bytes.chunks(2) {
+                limbs.push(ch[0] as u64 | ((*ch.get(1).unwrap_or(&0) as u64) << 8));
+            }
+            while limbs.len() % 4 != 0 {
+                limbs.push(0);
+            }
+            d.emit(json!({"op": "fromraw", "dst": 6, "c": "text", "n": m, "limbs": limbs}));
+            for fmt in FORMATS {
+                d.emit(json!({"op": "serde", "dst": 7, "r": 6, "fmt": fmt}));
+            }
+        }
         // k-mers of every K and storage
         for st in ["usize", "u64", "u128"] {
             for k in kset::<A>(st, all) {
